@@ -1,6 +1,6 @@
 (* C11 model runner.  One case per line:
-   <id> <cfg5bits> <preserve01> <wd> <cwd> <nprep> {d <path> | f <path> <tag> | l <path> <target>}* <npush>
-        { B <title> <tag> | U <title> <nent> { r <name> <tag> <mode> | d <name> <mode> | h <name> <tgt> | s <name> <tgt> | o <name> }* }*
+   <id> <cfg6bits> <preserve01> <wd> <cwd> <nprep> {d <path> | f <path> <tag> | l <path> <target> | h <path> <earlier file>}* <npush>
+        { B <title> <tag> | U <title> <nent> { (r <name> <tag> <mode> | d <name> <mode> | h <name> <tgt> | s <name> <tgt> | o <name>) <time> }* }*
    strings are hex ("-" = empty); paths are absolute slash-separated strings; modes decimal.
    Pre-populated directories have mode 0755, files 0644.
    Output: <id> <verdicts>|<hexpath>:<dMODE|fTAGmMODE|lHEXTARGET>,... sorted by hexpath *)
@@ -18,7 +18,7 @@ let run_case id toks =
   let next () = match !toks with x :: r -> toks := r; x | [] -> failwith "short line" in
   let bits = next () in
   let bit i = bits.[i] = '1' in
-  let g = { fixH = bit 0; fixA = bit 1; fixR = bit 2; fixN = bit 3; fixW = bit 4 } in
+  let g = { fixH = bit 0; fixA = bit 1; fixR = bit 2; fixN = bit 3; fixW = bit 4; fixT = bit 5 } in
   let pres = (next () = "1") in
   let wd = path_of_string (string_of_hex (next ())) in
   let cwd = path_of_string (string_of_hex (next ())) in
@@ -30,13 +30,18 @@ let run_case id toks =
     | "l" -> let p = path_of_string (string_of_hex (next ())) in
              let t = str_of_hex (next ()) in
              ents := (p, sym_node t) :: !ents
+    | "h" -> let p = path_of_string (string_of_hex (next ())) in
+             let t = path_of_string (string_of_hex (next ())) in
+             (match List.assoc_opt t !ents with
+              | Some (NFile i) -> ents := (p, NFile i) :: !ents
+              | _ -> failwith "prep hard link: target is not an earlier file")
     | "f" -> let p = path_of_string (string_of_hex (next ())) in
              let tag = int_of_string (next ()) in
              ents := (p, NFile (nat_of_int !ino)) :: !ents;
              cont := (nat_of_int !ino, n_of_int (tag * 1024 + 420)) :: !cont; incr ino
     | k -> failwith ("prep kind " ^ k)
   done;
-  let fs0 = { ents = !ents; cont = !cont; nexti = nat_of_int !ino; dmode = [] } in
+  let fs0 = { ents = !ents; cont = !cont; nexti = nat_of_int !ino; dmode = []; fstamp = []; dstamp = [] } in
   let npush = int_of_string (next ()) in
   let ops = ref [] in
   for _ = 1 to npush do
@@ -45,9 +50,9 @@ let run_case id toks =
              ops := PBlob (t, n_of_int tag) :: !ops
     | "U" -> let t = str_of_hex (next ()) in
              let ne = int_of_string (next ()) in
-             let es = ref [] in
+             let es = ref [] and ts = ref [] in
              for _ = 1 to ne do
-               match next () with
+               (match next () with
                | "r" -> let nm = str_of_hex (next ()) in let tag = int_of_string (next ()) in
                         let m = int_of_string (next ()) in
                         es := EReg (nm, n_of_int tag, n_of_int m) :: !es
@@ -56,19 +61,22 @@ let run_case id toks =
                | "h" -> let nm = str_of_hex (next ()) in let tg = str_of_hex (next ()) in es := EHard (nm, tg) :: !es
                | "s" -> let nm = str_of_hex (next ()) in let tg = str_of_hex (next ()) in es := ESym (nm, tg) :: !es
                | "o" -> es := EOther (str_of_hex (next ())) :: !es
-               | k -> failwith ("entry kind " ^ k)
+               | k -> failwith ("entry kind " ^ k));
+               ts := n_of_int (int_of_string (next ())) :: !ts
              done;
-             ops := PDir (t, List.rev !es) :: !ops
+             ops := PDir (t, List.rev !ts, List.rev !es) :: !ops
     | k -> failwith ("push kind " ^ k)
   done;
   let (st, oks) = pushes g pres wd cwd { st_fs = fs0; st_names = [] } (List.rev !ops) in
   let f = st.st_fs in
+  let stamp p k = if inside wd p || k = 0 then "" else "@" ^ string_of_int k in
   let lines = List.map (fun (p, nd) ->
       let hp = hex_of_path p in
       match nd with
-      | NDir -> (hp, "d" ^ string_of_int (int_of_n (dir_mode f p)))
+      | NDir -> (hp, "d" ^ string_of_int (int_of_n (dir_mode f p)) ^ stamp p (int_of_n (dir_stamp f p)))
       | NFile i -> let c = int_of_n (content f i) in
-                   (hp, "f" ^ string_of_int (c / 1024) ^ "m" ^ string_of_int (c mod 1024))
+                   (hp, "f" ^ string_of_int (c / 1024) ^ "m" ^ string_of_int (c mod 1024)
+                        ^ stamp p (int_of_n (file_stamp f i)))
       | NSym (d, _, _) -> (hp, "l" ^ hex_of_str d)) f.ents in
   let lines = List.sort compare lines in
   Printf.printf "%s %s|%s\n" id
@@ -79,4 +87,5 @@ let () =
   iter_lines (fun l ->
     match split_ws l with
     | [] -> ()
+    | [id; "X"] -> Printf.printf "%s UNJUDGED\n" id
     | id :: rest -> (try run_case id rest with Failure m -> Printf.printf "%s BADCASE %s\n" id m))
